@@ -29,6 +29,9 @@ pub struct Outcome {
     pub log: Vec<String>,
     /// (step, write statements of the aggregator during that step) when recording
     pub statements_by_step: Vec<(usize, Vec<String>)>,
+    /// aggregate key per epoch as found in certificates / published signer lists (C06)
+    pub avk_by_epoch: std::collections::BTreeMap<u64, String>,
+    pub registration_acks: Vec<(u32, u16, usize)>,
 }
 
 /// Execute a scenario: either draw events from the seeded driver or feed a recorded trace.
@@ -166,6 +169,8 @@ pub fn execute_with(sc: &Scenario, replay: Option<&[Event]>, keep_log: bool, opt
         nontrivial,
         log,
         statements_by_step,
+        avk_by_epoch: oracle.avk_by_epoch.clone(),
+        registration_acks: w.deliveries.iter().filter(|d| matches!(d.msg.kind, world::MsgKind::Registration { .. })).map(|d| (d.msg.id, d.status, d.step)).collect(),
     }
 }
 
@@ -427,6 +432,78 @@ impl Engine for NetEngine {
         }
         let sc = driver::generate_scenario(&ctx.property, ctx.seed, ctx.run, ctx.tier == Tier::Thorough);
         let out = execute(&sc, None, false);
+        let mut out = out;
+        // C06 (ii): paired run — the same history with the registrations of every epoch arriving
+        // in the opposite order must give bit-identical aggregate keys for every epoch
+        if ctx.property == "C06" && out.found.is_empty() {
+            // index of the Register event that created each registration message
+            let created_at: std::collections::BTreeMap<u32, usize> = out
+                .trace
+                .iter()
+                .enumerate()
+                .filter_map(|(i, e)| if let Event::Register { id, .. } = e { Some((*id, i)) } else { None })
+                .collect();
+            let mut paired = out.trace.clone();
+            // groups of registration deliveries of one epoch whose messages all exist before the
+            // group's first slot: within a group the arrival order is reversed
+            let mut group: Vec<usize> = vec![];
+            let mut flush = |group: &mut Vec<usize>, paired: &mut Vec<Event>| {
+                let evs: Vec<Event> = group.iter().rev().map(|i| paired[*i].clone()).collect();
+                for (slot, ev) in group.iter().zip(evs) {
+                    paired[*slot] = ev;
+                }
+                group.clear();
+            };
+            for i in 0..out.trace.len() {
+                match &out.trace[i] {
+                    Event::Deliver { id, keep: false, damage: None } if created_at.contains_key(id) => {
+                        if let Some(first) = group.first()
+                            && created_at[id] > *first
+                        {
+                            flush(&mut group, &mut paired);
+                        }
+                        group.push(i);
+                    }
+                    // a tick may rotate the registration round: arrival relative to it matters by
+                    // design, so a group never spans one
+                    Event::Epoch { .. } | Event::Restart | Event::Genesis | Event::Tick | Event::SyncView => flush(&mut group, &mut paired),
+                    _ => {}
+                }
+            }
+            flush(&mut group, &mut paired);
+            if paired != out.trace {
+                let second = execute(&sc, Some(&paired), false);
+                out.counters.insert("c06_paired_runs".into(), 1);
+                let mut compared = 0u64;
+                for (epoch, avk) in &out.avk_by_epoch {
+                    if let Some(other) = second.avk_by_epoch.get(epoch) {
+                        compared += 1;
+                        if !Oracle::same_avk(avk, other) && std::env::var_os("VERIF_DEBUG_C06").is_some() {
+                            eprintln!("DEBUG epoch {epoch}\n first  {}\n second {}", &avk[..avk.len().min(200)], &other[..other.len().min(200)]);
+                            let diff: Vec<usize> = (0..out.trace.len().min(paired.len())).filter(|i| out.trace[*i] != paired[*i]).collect();
+                            eprintln!("DEBUG differing slots {diff:?} len {} {}", out.trace.len(), second.trace.len());
+                            eprintln!("DEBUG acks first  {:?}", out.registration_acks);
+                            eprintln!("DEBUG acks second {:?}", second.registration_acks);
+                        }
+                        if !Oracle::same_avk(avk, other) {
+                            out.found.push(oracle::Found {
+                                clause: "avk-depends-on-arrival-order".into(),
+                                detail: format!("epoch {epoch}: the same registrations arriving in the opposite order give another aggregate key"),
+                                step: out.trace.len(),
+                            });
+                            break;
+                        }
+                    }
+                }
+                out.counters.insert("c06_paired_epochs_compared".into(), compared);
+                if let Some(f) = second.found.first()
+                    && out.found.is_empty()
+                {
+                    out.found.push(f.clone());
+                    out.trace = paired.clone();
+                }
+            }
+        }
         let mut report = RunReport::new(ctx.run);
         report.fingerprint = out.fingerprint;
         report.digest = out.digest;
@@ -440,6 +517,11 @@ impl Engine for NetEngine {
             }
             // minimise: keep the scripted bootstrap, shrink the rest
             let clause = first.clause.clone();
+            if clause == "avk-depends-on-arrival-order" {
+                report.violations.push(Violation { property: ctx.property.clone(), clause, detail: first.detail.clone(), finding: None });
+                report.replay = Some(json!({"scenario": sc, "trace": out.trace, "paired": true}));
+                return report;
+            }
             let prefix_len = 2 + 2 * (2 * sc.n_parties) + 4 + 1 + 4;
             let prefix_len = prefix_len.min(out.trace.len());
             let (prefix, rest) = out.trace.split_at(prefix_len);
@@ -493,6 +575,11 @@ impl Engine for NetEngine {
             eprintln!("HARNESS-ERROR: bad replay trace: {e}");
             std::process::exit(2)
         });
+        if doc["paired"].as_bool().unwrap_or(false) {
+            // two-run property: the trace and its registration-order mirror
+            let ctx = RunCtx { property: sc.property.clone(), tier: Tier::Quick, seed: sc.seed, run: sc.run, want_sample: false };
+            return self.run(&ctx);
+        }
         let opts = ExecOptions { quiesce: doc["quiesce"].as_bool().unwrap_or(false), ..Default::default() };
         let out = execute_with(&sc, Some(&trace), true, &opts);
         if std::env::var_os("VERIF_SHOW_LOG").is_some() {
